@@ -278,7 +278,7 @@ def replay(case, ctx):
 
 
 def plan(tier, seed):
-    n, per, ms = (16, 3, 24) if tier == "quick" else (16, 24, 70)
+    n, per, ms = (16, 8, 40) if tier == "quick" else (16, 24, 70)
     sh = [{"kind": "audit", "n": per, "max_subsets": ms} for _ in range(n)]
     if tier == "thorough":
         sh += [{"kind": "strace", "n": 10, "max_subsets": 0} for _ in range(15)]
